@@ -183,7 +183,7 @@ class Node(object):
             self._children.insert(index, child)
             child.parent = self
 
-        if self.nsmap == child.nsmap:
+        if self.nsmap == child.nsmap and list(self.nsmap) == list(child.nsmap):
             child.nsmap = self.nsmap
         else:
             for prefix in self.nsmap:
